@@ -33,6 +33,10 @@ def plan(tier, seed):
         r = rnd.random()
         mode = 'euler' if r < 0.45 else 'heun' if r < 0.55 else 'probe' if r < 0.85 else 'scipy_run'
         cases.append({'family': 'main', 'cseed': rnd.randrange(1 << 30), 'mode': mode})
+    # node types that share one operator (wildcard inputs over several vectorization groups)
+    for _ in range(16 if tier == 'quick' else 300):
+        cases.append({'family': 'shared_operator', 'cseed': rnd.randrange(1 << 30), 'mode': rnd.choice(['euler', 'euler', 'probe']),
+                      'spec_kind': 'shared_ops', 'force': rnd.choice(['wildcard_multi', 'wildcard_multi', None])})
     # wide groups: one array broadcast / distributed to 11-16 nodes of one type
     for _ in range(16 if tier == 'quick' else 400):
         cases.append({'family': 'wide', 'cseed': rnd.randrange(1 << 30), 'mode': rnd.choice(['euler', 'euler', 'probe'])})
@@ -71,8 +75,21 @@ def make_case(case, ctx):
             vec = rnd.random() < 0.8
         if fam == 'backends' or case.get('want') == 'multi_column_input_not_vectorized':
             vec = False
-        spec, feats, risk = c04.make_spec({'cseed': rnd.randrange(1 << 30), 'family': 'wide' if fam == 'wide' else 'main'},
-                                          ctx['excluded'])
+        force_wild = case.get('force') == 'wildcard_multi'     # (C06 input_paths family: wildcard paths, one column per addressed node)
+        if force_wild:
+            vec = True
+        if case.get('spec_kind') == 'shared_ops':
+            # node types that share an operator: the wildcard path over that operator addresses several vectorization groups
+            spec = gen.gen_shared_op_net(rnd)
+            feats, risk = gen.features(spec)
+            feats = sorted(set(feats) | {'node_types_share_operator'})
+            risk = sorted((set(risk) - {'vec_partial_input_default'}) | c04.vec_risks(spec))
+            if set(risk) & ctx['excluded']:
+                continue
+        else:
+          # (constants declared with an integer default do not compile on Fortran: finding F-C02-fortran-int-constant, probed by C02)
+          spec, feats, risk = c04.make_spec({'cseed': rnd.randrange(1 << 30), 'family': 'wide' if fam == 'wide' else 'main',
+                                             'no_int_decl': case.get('backend') == 'fortran'}, ctx['excluded'])
         if vec:
             for o in spec['ops'].values():
                 for v, d in o['vars'].items():
@@ -91,6 +108,8 @@ def make_case(case, ctx):
             n = rnd.choice(holders)
             parts = n.split('/')
             mode = rnd.choice(['single', 'single', 'all_leaf', 'all_all']) if fam != 'wide' else rnd.choice(['all_leaf', 'all_all'])
+            if force_wild:
+                mode = rnd.choice(['all_leaf', 'all_all'])
             if mode == 'all_leaf':
                 parts[-1] = 'all'
             elif mode == 'all_all':
@@ -98,7 +117,7 @@ def make_case(case, ctx):
             path = '/'.join(parts + [op, var])
             targets = [t for t in match_nodes(ref.node_order, parts) if (t, op, var) in ref.kind]
             shape = rnd.choice(['1d', '1d', 'col1', 'multi'])
-            if case.get('want') == 'multi_column_input_not_vectorized' and len(targets) >= 2:
+            if (case.get('want') == 'multi_column_input_not_vectorized' or force_wild) and len(targets) >= 2:
                 shape = 'multi'
             elif shape == 'multi' and (not vec or len(targets) < 2):
                 shape = '1d'
@@ -116,6 +135,8 @@ def make_case(case, ctx):
                 arr[-4:] = 0.0
             plan_.append({'path': path, 'targets': targets, 'shape': shape, 'arr': arr, 'op': op, 'var': var})
         if not plan_:
+            continue
+        if force_wild and not any(p['shape'] == 'multi' for p in plan_):
             continue
         if case.get('want') == 'multi_column_input_not_vectorized':
             if not any(p['shape'] == 'multi' for p in plan_):
